@@ -35,10 +35,12 @@ func checkC11(p *Prog, r *Report) {
 	r.rule("C11.D4", "every index of Listener.sessions is <address>.String() of the datagram's source (lookup, insert) or of the closing session's remote (delete)", 4)
 	r.rule("C11.D5", "in KCP.Input every state-changing call and store of the segment loop is dominated by conv == kcp.conv", 6)
 	r.rule("C11.D6", "both read loops of dialled sessions reach packetInput only after learning the first source or after the source matched; a mismatch continues with the next datagram; sameUDPAddr compares IP, port and zone", 3)
+	r.rule("C11.D9", "traffic from one address never stalls the others: nothing blocks while a session mutex is held (= C02.A7) — the listener's single receive goroutine takes that mutex for every datagram of the session", 1)
 	r.rule("C11.D8", "one session cannot stall the others: no lock-order cycle between a session's mutex and the listener's table lock (= C13.W12) — the blocked goroutine would be the listener's only receive loop, so every session on the socket goes deaf", 1)
 	r.rule("C11.D7", "UDPSession.Close removes the session from its listener (closeSession(s.remote)) on the first close; Listener.packetInput has a single caller chain (the monitor goroutine)", 2)
 
 	checkLockOrder(p, r, "C11.D8")
+	delegate(p, r, "C02", checkC02, "C02.A7", "C11.D9")
 	lp := p.FuncByName("(*Listener).packetInput")
 	if lp == nil {
 		brokenCheck("ANCHOR-UNRESOLVED role=func (*Listener).packetInput")
@@ -676,16 +678,25 @@ func checkC11(p *Prog, r *Report) {
 		}
 		pt, _ := cc.PointOf(s.Call)
 		okConds := true
+		firstOnly := false // the call lies on the side where this Close fired the once: a later Close must not unregister again
 		for _, ct := range cc.DominatingConds(pt) {
 			for _, a := range Conjuncts(ct) {
 				k := pretty(a.Key())
 				if !(strings.Contains(k, "once") || k == "!=(nil,s.l)" || strings.Contains(k, ".l)") || strings.Contains(k, ".l,")) {
 					okConds = false
 				}
+				if a.Op == "var" {
+					if v, isV := a.Obj.(*types.Var); isV && p.isOnceFlag(cl, v, 0) {
+						firstOnly = true
+					}
+				}
 			}
 		}
-		if okConds {
+		if okConds && firstOnly {
 			okRemove = true
+		}
+		if okConds && !firstOnly {
+			r.bad("C11.D7", cl.Name, p.Pos(s.Call), "closeSession only on the first Close", "the session is unregistered by address on every Close, not only on the one that actually closes it: a late Close of a session that was replaced (same address, new conversation) removes its successor from the table — the next datagram of the peer creates a duplicate session (a second Accept) and the live one goes deaf", "")
 		}
 	}
 	r.check(okRemove, "C11.D7", cl.Name, p.Pos(cl.Node), "Close removes the session from the listener", "closeSession(s.remote) on the first close when a listener exists", "a closed session stays in the listener's table: later traffic from that address is fed to a dead session and the peer can never reconnect")
